@@ -121,6 +121,12 @@ class ClassInfo:
         for c in self.mro():
             if not isinstance(c, ClassInfo):
                 continue
+            # a private name as the compiler mangles it (self.__step inside class K is K._K__step): the member is defined under its source name
+            pre_ = "_" + c.name.lstrip("_") + "__"
+            if name.startswith(pre_) and not name.endswith("__"):
+                src_ = "__" + name[len(pre_):]
+                if src_ in c.methods:
+                    return c, c.methods[src_]
             if name in c.injected:
                 return c, c.injected[name]
             if name in c.methods:
